@@ -9,7 +9,7 @@ from typing import List, Optional
 from ..cfg import CFG, ENTRY, EXIT
 from ..core import AnalysisError, FunctionInfo, Project, dotted, is_const, kwarg, norm, param_names, walk_no_nested
 from .. import sym
-from ..util import assignments, count_negations, header_walk, mentions, returns_of, stmt_text
+from ..util import assignments, count_negations, doc_order, header_walk, mentions, returns_of, stmt_text
 from .shared import MAT
 
 CONTRASTS = "formulaic.transforms.contrasts"
@@ -39,7 +39,7 @@ def r1(ctx):
     lp = loops[0]
     inits = [st for st in fn.body if isinstance(st, (ast.Assign, ast.AnnAssign)) and norm(st.targets[0] if isinstance(st, ast.Assign) else st.target) == "spanned"]
     ctx.look()
-    ctx.check(len(inits) == 1 and norm(inits[0].value) in ("set()", "OrderedSet()") and inits[0].lineno < lp.lineno and
+    ctx.check(len(inits) == 1 and norm(inits[0].value) in ("set()", "OrderedSet()") and doc_order(fn)[id(inits[0])] < doc_order(fn)[id(lp)] and
               not any(n == "spanned" for n, _, _ in assignments(lp)), "C03.R1", "`spanned` is created once, empty, before the term loop", f.where,
               ctx.construct(f, text="spanned init"), "the set of already-spanned scoped terms must persist across terms and start empty")
     # one iteration with ensure_full_rank on, read off the path summaries: what is added to `spanned`, and what is yielded
@@ -319,6 +319,8 @@ def r6(ctx):
     f = P.func(f"{MAT}._encode_evaled_factor")
     dels = [n for n in walk_no_nested(f.node) if isinstance(n, ast.Delete)]
     ctx.floor("C03.R6", len(dels), 1, "reference-column deletions")
+    from ..util import doc_order
+    _pos6 = doc_order(f.node)
     for d in dels:
         ctx.look()
         g = P.parent(d)
@@ -329,7 +331,7 @@ def r6(ctx):
         ok_tgt = isinstance(tgt, ast.Subscript) and norm(tgt.slice).endswith(".drop_field") and isinstance(tgt.value, ast.Name)
         # the deleted-from object is a fresh copy made in the same branch
         name = tgt.value.id if ok_tgt else "?"
-        prior = [s for s in (g.body if isinstance(g, ast.If) else []) if isinstance(s, ast.Assign) and norm(s.targets[0]) == name and s.lineno < d.lineno]
+        prior = [s for s in (g.body if isinstance(g, ast.If) else []) if isinstance(s, ast.Assign) and norm(s.targets[0]) == name and _pos6[id(s)] < _pos6[id(d)]]
         ok_copy = bool(prior) and f"{name}.copy()" in norm(prior[-1].value)
         ctx.check(ok_guard and ok_tgt and ok_copy, "C03.R6",
                   "the reference column is deleted only under spans_intercept and reduced_rank, from a copy of the cached encoding", f.module.line(d),
